@@ -133,6 +133,7 @@ def make_config(rng: random.Random):
     cfg["magnitude"] = rng.choice(["ordinary", "ordinary", "ordinary", "huge", "huge", "tiny", "special"])
     if rng.random() < 0.15:
         cfg["crs"] = rng.choice(gen.CUSTOM_RASTER_CRS)  # user-defined CRS without an authority code
+    cfg["aborted_first"] = rng.random() < 0.12
     if rng.random() < 0.12:
         cfg["dtype"] = rng.choice(["int64", "uint64"])
         cfg["nodata"] = rng.choice([None, 0, -9999 if cfg["dtype"] == "int64" else 9999])
@@ -215,6 +216,26 @@ def run_config(mon: Monitor, cfg, workdir: str) -> None:
     s3 = _BodyS3() if to_s3 else None
     order_sig = None
     wit = lambda extra=None: {**cfg, **(extra or {})}
+    if cfg.get("aborted_first") and not to_s3:
+        # an earlier attempt at the same destination that died half way (one source chunk raised): same layout, other pixels.  Whatever it left on disk must not
+        # find its way into the file written now
+        other = np.bitwise_xor(data.view(np.uint8), 0x5A).view(data.dtype).reshape(data.shape) if dt.kind in "iu" else (-data - 1.0).astype(dt)
+        nb = da.from_array(other, chunks=chunks).numblocks
+        # (dask's depth-first order reaches the first block of the image last: most parts are on disk by then; seeded alternative: a block in the middle)
+        victim = tuple(0 for _ in nb) if cfg["order_seed"] % 3 else tuple(n // 2 for n in nb)
+
+        def boom(block, block_info=None):
+            if block_info and tuple(block_info[0]["chunk-location"]) == victim:
+                raise RuntimeError("source chunk failed (injected)")
+            return block
+
+        xbad = xr.DataArray(da.from_array(other, chunks=chunks).map_blocks(boom, dtype=dt), dims=dims, coords=xr_coords(gb), attrs=attrs)
+        _, e_bad = call(lambda: save_cog_with_dask(xbad, fn, **kw).compute(scheduler="sync"))
+        left = [os.path.join(r, f) for r, _d, fs in os.walk(workdir) for f in fs if os.path.basename(fn) in r and r != workdir]
+        mon.obs["aborted_earlier_saves" + ("|left-part-files" if left else "|left-nothing") + ("" if e_bad is not None else "|did-not-fail")] += 1
+        _sink_log.pop(fn, None)
+        if left and e_bad is not None:
+            mon.ok("workload.aborted-first", cls="left-part-files")
 
     def go():
         nonlocal order_sig
@@ -434,7 +455,9 @@ CONFIG_WATCHDOG_S = 300
 WRITE_BOUND = 2_000_000
 
 PINNED = [
-    # very large magnitudes in every band with statistics on (seeded change C05-7: header room reserved for the statistics text, offsets computed before it is patched in)
+    # a save that died half way at the same destination, then the real one: same layout, fixed-size (uncompressed) tiles, parts spilled early (C05-8 / C18-8: part files of equal size kept)
+    dict(ny=256, nx=240, layout="YX", ns=1, dtype="uint16", chunks=[64, 64], band_chunk=1, nodata=None, blocksize=[64], compression="none", predictor=None, spill_sz=1024, writes_per_chunk=2, stats=False, bigtiff=True, scheduler="sync", workers=2, order_seed=28, data_seed=28, crs="EPSG:3857", aborted_first=True),
+    dict(ny=200, nx=150, layout="SYX", ns=2, dtype="float32", chunks=[64, 64], band_chunk=1, nodata=None, blocksize=[32], compression="none", predictor=None, spill_sz=0, writes_per_chunk=3, stats=True, bigtiff=True, scheduler="threads", workers=4, order_seed=29, data_seed=29, crs="EPSG:4326", aborted_first=True),    # very large magnitudes in every band with statistics on (seeded change C05-7: header room reserved for the statistics text, offsets computed before it is patched in)
     dict(ny=70, nx=100, layout="SYX", ns=2, dtype="float64", chunks=[32, 32], band_chunk=1, nodata=None, blocksize=[32], compression="deflate", predictor=None, spill_sz=None, writes_per_chunk=None, stats=True, bigtiff=True, scheduler="sync", workers=2, order_seed=25, data_seed=25, crs="EPSG:3857", magnitude="huge"),
     dict(ny=64, nx=48, layout="YX", ns=1, dtype="int64", chunks=[16, 16], band_chunk=1, nodata=None, blocksize=[16], compression="zstd", predictor=None, spill_sz=1024, writes_per_chunk=2, stats=True, bigtiff=False, scheduler="threads", workers=4, order_seed=26, data_seed=26, crs="EPSG:4326", magnitude="huge"),
     dict(ny=33, nx=40, layout="YXS", ns=3, dtype="float32", chunks=[16, 16], band_chunk=3, nodata=None, blocksize=[16], compression="lzw", predictor=None, spill_sz=None, writes_per_chunk=None, stats=True, bigtiff=True, scheduler="sync", workers=2, order_seed=27, data_seed=27, crs="EPSG:32633", magnitude="special"),
@@ -491,7 +514,7 @@ def run(mon: Monitor, tier: str, seed: int, shard: int, nshards: int) -> None:
         mon.obs["distinct_orders_sync"] = len({o for s, o in _orders if s == "sync"})
         mon.obs["distinct_orders_threads"] = len({o for s, o in _orders if s == "threads"})
         for pt, n in [("gdal-readback", 60), ("tiff-structure", 60), ("tiff-bytes", 60), ("tiff-order", 60), ("tiff-decode", 60), ("overview-values", 60), ("sink-history", 40), ("s3-history", 8),
-                      ("gdal-readback|YX|thin", 2), ("gdal-readback|SYX|regular", 2), ("gdal-readback|YXS|regular", 2)]:
+                      ("gdal-readback|YX|thin", 2), ("gdal-readback|SYX|regular", 2), ("gdal-readback|YXS|regular", 2)] + ([("workload.aborted-first|left-part-files", 1)] if shard == 0 else []):
             mon.floor(pt, n)
     finally:
         detach_all()
